@@ -16,7 +16,7 @@ EXTRA = {
     "C04": " Also: marshalled documents re-indented and re-spaced before reading, texts written under each switch combination read under each other one, refused inputs of 18 kinds immediately before the round trips, decimal-structure values (digit groups of zeros and nines). A program that links this package alone (no sibling package of the library) runs a compact sweep against the reference models. 4.8 million refused inputs (over-long, malformed) before a set of round trips.",
     "C05": " Also: ID.UnmarshalText on every input, ~130 decorated spellings of valid texts, every one-letter verb, named types with display methods, inputs bordering inaccessible pages, refill histories, separator-pair substitutions (exhaustive). Prefixes with fmt directives/diagnostics and multi-byte text under both formats; refusals repeated after the caller edited the returned error. A program that links this package alone (no sibling package of the library) runs a compact sweep against the reference models. Results kept by the caller are compared again after garbage collections, finalizer runs and later calls. 1..32 invalid digits at once. 4,000+ random single-threaded call histories of length 24-32 that dwell on a few steps. Formatter and Parser hooks that call the library themselves, on one goroutine (a call parked for good on a lock inside the library is detected by its goroutine state) and from all workers at once.",
     "C06": " Also: pre-release strings sharing memory (prefix/suffix slices, versions parsed from one buffer), the tag letter inside identifiers, 20+ digit numerics, long common prefixes. A program that links this package alone (no sibling package of the library) runs a compact sweep against the reference models. Pairs each within the input limit and together beyond it.",
-    "C07": " Also: every day of years -1300..0 and 9999..10400, a far-year boundary set to +-999,999,999, Add with day/month/year counts to 2^31-1, LMT-style zone offsets with seconds, date.Today under every zone. Fixed zones named UTC, GMT, Local or nothing at all with arbitrary offsets.",
+    "C07": " Also: every day of years -1300..0 and 9999..10400, a far-year boundary set to +-999,999,999, Add with day/month/year counts to 2^31-1, LMT-style zone offsets with seconds, date.Today under every zone. Fixed zones named UTC, GMT, Local or nothing at all with arbitrary offsets. Years that agree modulo 2^3..2^29 visited one after the other on a single goroutine.",
     "C08": " Also: decorated spellings, inputs bordering inaccessible pages, refill histories, cold-start children. The same text as json.Number, json.RawMessage, sql.RawBytes and named types under three rules; number literals with fractions and exponents around 2^53 and 2^64; a Scan method, if the tree has one, judged on int64 and float64 sources against exact arithmetic. A program that links this package alone (no sibling package of the library) runs a compact sweep against the reference models. 18 units x 8 numbers in nine written forms (New, text, JSON string and object forms, Unmarshal*, encoding/json). Floats one ulp, 1e-10 and 1e-9 away from whole numbers; object documents whose ignored members hold null and decoy value/unit members.",
     "C09": " Also: Feb 28/29/30 of every year to 1,000,000 and every century year to 999,999,900, decorated spellings, named types with display methods, inputs bordering inaccessible pages, year-aliasing and checksum-collision histories. Refusals repeated after the caller edited the exported fields of the returned error (an error object kept and handed out again). A program that links this package alone (no sibling package of the library) runs a compact sweep against the reference models. 4,000+ random single-threaded call histories of length 24-32 that dwell on a few steps. The Parser variable assigned twice through one non-inlined helper with another rule captured.",
     "C10": " Also: decorated spellings, named types with display methods, inputs bordering inaccessible pages, build-tag variants of the matcher. The Parser variable replaced by one that adds RuleDisableEmptyAsZero, with nil, empty, empty-with-capacity data and empty XML/JSON texts through UnmarshalText; refusals repeated after the caller edited the returned error. A program that links this package alone (no sibling package of the library) runs a compact sweep against the reference models. 4,000+ random single-threaded call histories of length 24-32 that dwell on a few steps.",
@@ -29,7 +29,7 @@ EXTRA = {
     "C17": " Also: buffers shared read-only with watcher goroutines, refill histories for all five types, hostile Scan sources (typed nil pointers, Valuers), inputs bordering inaccessible pages. The 14 generic entry points also at json.RawMessage, json.Number and sql.RawBytes; JSON documents that are almost one value; failing inputs of 250..70,000 bytes with the limits raised, printed (Error()) before the buffers are compared. The two-argument helpers at seven mixes of argument types; a string allocated at the address of a collected, parsed string of the same length. Documents with several unknown keys, repeated; for every UnmarshalJSON found at run time, objects built from the type's own field names in which a later member is mistyped.",
     "C18": " Also: input-too-long errors re-read after the limit was changed, hostile Scan sources, hostile inputs bordering inaccessible pages (faults reported with the input), five coverage-guided fuzz targets in thorough. Scan sources that contain themselves (maps, slices, structs, pointers); allocation measured on inputs of tens of thousands of digit groups, identifiers, repeated prefixes and JSON members. JSON frames filled with invalid UTF-8 (each byte decodes to three) at every length around the limit.",
     "C19": " Also: bursts of 512/2048/4000 goroutines, a child that draws, stays silent for 35 s (thorough to 310 s) and is then used by goroutines not ordered after the first draw, a garbage-collector churn child (120,000 / 320,000 rounds of two IDs and two collections), an uninstrumented long run of 6.4*10^8 / 3.2*10^9 draws with exact and value-sampled duplicate detection, one child pinned to a single CPU, the global math/rand source reseeded while drawing. GOMAXPROCS 24..100 on 16 cores; a child stopped with SIGSTOP for 1.3 s, 2.5 s and 6 s while 600 goroutines draw (all IDs kept). 42 children that draw exactly 2^k-1, 2^k, 2^k+1 IDs, stay silent for 31 s and draw again, under both timer-channel settings.",
-    "C20": " Also: a type whose own Equal/Compare/String are looser than deep equality, values differing in one field only, non-nil errors holding nil pointers, wrapped errors, hooks that rewrite the case, panic values whose methods panic, T instantiated as an interface type. A hand-written predicate that is content with any outcome (optional error). Predicate values shared by all cases, lists and helper calls of the process.",
+    "C20": " Also: a type whose own Equal/Compare/String are looser than deep equality, values differing in one field only, non-nil errors holding nil pointers, wrapped errors, hooks that rewrite the case, panic values whose methods panic, T instantiated as an interface type. A hand-written predicate that is content with any outcome (optional error). Predicate values shared by all cases, lists and helper calls of the process. Refused unmarshals that leave an empty map or slice that is not nil behind.",
 }
 
 # id -> (technique, level text, level note, design ref)
